@@ -97,8 +97,10 @@ package hrpc
 //@   pure
 //@ func hrpc.Call.Context() (r)
 //@   pure
+// assumption (input validity): calls are built for legal table names - name plus ",,:" fits HBase's MAX_ROW_LENGTH
 //@ func hrpc.Call.Table() (r)
 //@   pure
+//@   ensures len(r) <= 32764
 //@ func hrpc.Call.Key() (r)
 //@   pure
 
@@ -156,6 +158,7 @@ package hrpc
 // (a nil inner map of a delete stands for the single empty qualifier in both).
 
 //@ func hrpc.(*Mutate).valuesToCellblocks
+//@   modifies nothing
 //@   requires len(m.key) <= 65535
 //@   requires forall(f, haskey(m.values, f) ==> strlen(f) <= 255)
 //@   requires forall(f, q, haskey(m.values, f) && haskey(m.values[f], q), strlen(q) + len(m.values[f][q]) < 2147000000)
@@ -166,6 +169,7 @@ package hrpc
 //@   at call appendCellblock#1 assert[C10] sameslice(v1, ite(m.mutationType == 3 && m.values[family] == nil, emptyQualifier, m.values[family])[k1])
 
 //@ func hrpc.(*Mutate).valuesToProto
+//@   modifies nothing
 //@   requires *MutationProtoDeleteFamilyVersion == 3 && *MutationProtoDeleteFamily == 2 && *MutationProtoDeleteOneVersion == 0 && *MutationProtoDeleteMultipleVersions == 1
 //@   loop 2 invariant[C10] m.mutationType != 3 ==> dt == nil
 //@   loop 2 invariant[C10] m.mutationType == 3 ==> dt != nil && *dt == pbDeleteKind(len(m.values[k]) == 0, m.deleteOneVersion)
@@ -204,6 +208,8 @@ package hrpc
 //@   pure
 //@ func hrpc.RegionInfo.String() (r)
 //@   pure
+//@ func hrpc.RegionInfo.AvailabilityChan() (r)
+//@   modifies nothing
 //@ func hrpc.RegionInfo.Client() (r)
 //@   modifies nothing
 //@   ensures r == ghostat("regclient", recv)
@@ -264,3 +270,53 @@ package hrpc
 //@   trusted "constant-time view conversion (uses unsafe to reinterpret the cell slice); allocates the local result"
 //@   modifies nothing
 //@   ensures r0 != nil
+//@ func hrpc.Families
+//@   trusted "option constructor"
+//@   modifies nothing
+//@ func hrpc.Reversed
+//@   trusted "option constructor"
+//@   modifies nothing
+
+// ---- the region a request names (C01) ----
+//@ func hrpc.(*base).SetRegion
+//@   modifies F.hrpc.base.region
+//@   ensures b.region == region
+//@ func hrpc.(*base).Region
+//@   modifies nothing
+//@   ensures r0 == b.region
+// the specifier placed into a request names the region the call is bound to. Descriptors that carry a prepared specifier
+// (region.info) carry one for their own name: established by region.NewInfo (verified there) and kept by immutability
+//@ pred hrpc.ownSpecifier(sp, r) = sp != nil && sp.Type != nil && *sp.Type == 1 && seqeq(sp.Value, r.Name())
+//@ func hrpc.interface_RegionSpecifier____pb.RegionSpecifier_.RegionSpecifier() (sp)
+//@   modifies nothing
+//@   ensures ownSpecifier(sp, asiface(recv, "hrpc.RegionInfo"))
+//@ func pb.RegionSpecifier_RegionSpecifierType.Enum
+//@   modifies nothing
+//@   ensures r0 != nil && *r0 == x && !was(allocated(r0))
+//@ func hrpc.(*base).regionSpecifier
+//@   requires b.region != nil && RegionSpecifierRegionName != nil && *RegionSpecifierRegionName == 1
+//@   modifies nothing
+//@   panics never[C01]
+//@   ensures[C01] ownSpecifier(r0, b.region)
+//@ func hrpc.familiesToColumn
+//@   trusted "builds the column list of a request from the call's family map; allocates, writes nothing that exists"
+//@   modifies nothing
+//@ func hrpc.ConsistencyType.toProto
+//@   modifies nothing
+// a Get request names the region its call is bound to and carries the call's own row key
+//@ func hrpc.(*Get).ToProto
+//@   requires g.region != nil && RegionSpecifierRegionName != nil && *RegionSpecifierRegionName == 1
+//@   panics never[C01]
+//@   ensures[C01] typeis(r0, "*pb.GetRequest") && ownSpecifier(cast(r0, "*pb.GetRequest").Region, g.region)
+//@   ensures[C01] cast(r0, "*pb.GetRequest").Get != nil && sameslice(cast(r0, "*pb.GetRequest").Get.Row, g.key)
+// a mutation request names the region its call is bound to and carries the call's own row key
+//@ func hrpc.(*Mutate).toProto
+//@   requires m.region != nil && RegionSpecifierRegionName != nil && *RegionSpecifierRegionName == 1
+//@   requires 0 <= m.durability && m.durability < len(durabilities)
+//@   requires len(m.key) <= 65535
+//@   requires forall(f, haskey(m.values, f) ==> strlen(f) <= 255)
+//@   requires forall(f, q, haskey(m.values, f) && haskey(m.values[f], q), strlen(q) + len(m.values[f][q]) < 2147000000)
+//@   requires emptyQualifier != nil && forall(q, haskey(emptyQualifier, q) ==> strlen(q) == 0 && len(emptyQualifier[q]) == 0)
+//@   requires *MutationProtoDeleteFamilyVersion == 3 && *MutationProtoDeleteFamily == 2 && *MutationProtoDeleteOneVersion == 0 && *MutationProtoDeleteMultipleVersions == 1
+//@   ensures[C01] r0 != nil && ownSpecifier(r0.Region, m.region)
+//@   ensures[C01] r0.Mutation != nil && sameslice(r0.Mutation.Row, m.key)
